@@ -1,6 +1,7 @@
 package rules
 
 import (
+	"go/token"
 	"go/types"
 
 	"golang.org/x/tools/go/ssa"
@@ -227,29 +228,7 @@ func runC11(c *Ctx) {
 	}
 	R.Check(sWrite.Call.Value == ssa.Value(connP), "C11.R1", "potentialConnUpgrade:S-on-plain-conn", c.at(sWrite), "'S' is written on the plaintext connection the request came from", "receiver is the conn parameter", "'S' is written to a different connection value")
 	// guards: TLSConfig != nil and len(Certificates) != 0
-	var cfgNonNil, certsNonEmpty []edge
-	for _, b := range pcu.Blocks {
-		for _, in := range b.Instrs {
-			cmp, ok := in.(*ssa.BinOp)
-			if !ok {
-				continue
-			}
-			if v, _, ok := core.NilTest(cmp); ok {
-				if fr, ok := core.FieldOfValue(v); ok && fr.Is(pkWire, "Server", "TLSConfig") {
-					cfgNonNil = append(cfgNonNil, nilEdges(v, false)...)
-				}
-			}
-			if x, ok := core.IsLenOf(cmp.X); ok {
-				if _, p := pathOf(x); p == ".TLSConfig.Certificates" {
-					if k, ok := core.ConstInt(cmp.Y); ok && k == 0 {
-						certsNonEmpty = append(certsNonEmpty, constEqEdges(cmp.X, 0, false)...)
-						// also len > 0 forms
-						certsNonEmpty = append(certsNonEmpty, gtEdges(pcu, func(v ssa.Value) bool { return v == cmp.X }, func(v ssa.Value) bool { k, ok := core.ConstInt(v); return ok && k == 0 })...)
-					}
-				}
-			}
-		}
-	}
+	cfgNonNil, certsNonEmpty := c.certGuards(pcu, 2)
 	guardAt := sWrite.Block()
 	guardFn := pcu
 	if len(cfgNonNil) == 0 && len(certsNonEmpty) == 0 {
@@ -258,27 +237,7 @@ func runC11(c *Ctx) {
 			guardFn = site.Parent()
 			guardAt = site.Block()
 		}
-		for _, b := range guardFn.Blocks {
-			for _, in := range b.Instrs {
-				cmp, ok := in.(*ssa.BinOp)
-				if !ok {
-					continue
-				}
-				if v, _, ok := core.NilTest(cmp); ok {
-					if fr, ok := core.FieldOfValue(v); ok && fr.Is(pkWire, "Server", "TLSConfig") {
-						cfgNonNil = append(cfgNonNil, nilEdges(v, false)...)
-					}
-				}
-				if x, ok := core.IsLenOf(cmp.X); ok {
-					if _, p := pathOf(x); p == ".TLSConfig.Certificates" {
-						if k, ok := core.ConstInt(cmp.Y); ok && k == 0 {
-							certsNonEmpty = append(certsNonEmpty, constEqEdges(cmp.X, 0, false)...)
-							certsNonEmpty = append(certsNonEmpty, gtEdges(guardFn, func(v ssa.Value) bool { return v == cmp.X }, func(v ssa.Value) bool { k, ok := core.ConstInt(v); return ok && k == 0 })...)
-						}
-					}
-				}
-			}
-		}
+		cfgNonNil, certsNonEmpty = c.certGuards(guardFn, 2)
 	}
 	R.Check(anyDominates(cfgNonNil, guardAt) && anyDominates(certsNonEmpty, guardAt), "C11.R1", "potentialConnUpgrade:S-only-with-certificates", c.at(sWrite), "'S' is sent only when a TLS configuration with at least one certificate exists", "dominated by TLSConfig != nil and len(Certificates) != 0", "the 'S' reply is not dominated by both the TLSConfig != nil and the certificates-present edges")
 	// crypto/tls also accepts configurations that supply their certificate through GetCertificate / GetConfigForClient
@@ -742,4 +701,90 @@ func (c *Ctx) originPath(v ssa.Value, fn *ssa.Function, depth int) string {
 		}
 	}
 	return ""
+}
+
+// certGuards returns the edges of fn on which Server.TLSConfig is known to be non-nil and on which its Certificates list
+// is known to be non-empty: direct tests, and the true edge of a boolean helper of package wire that answers true only
+// when both hold (func (srv *Server) hasCertificates() bool { return cfg != nil && len(cfg.Certificates) > 0 }).
+func (c *Ctx) certGuards(fn *ssa.Function, depth int) (cfgNonNil, certsNonEmpty []edge) {
+	isCertCmp := func(cmp *ssa.BinOp) bool {
+		x, ok := core.IsLenOf(cmp.X)
+		if !ok {
+			return false
+		}
+		if _, p := pathOf(x); p != ".TLSConfig.Certificates" {
+			return false
+		}
+		k, ok := core.ConstInt(cmp.Y)
+		return ok && k == 0
+	}
+	for _, b := range fn.Blocks {
+		for _, in := range b.Instrs {
+			cmp, ok := in.(*ssa.BinOp)
+			if !ok {
+				continue
+			}
+			if v, _, ok := core.NilTest(cmp); ok {
+				if fr, ok := core.FieldOfValue(v); ok && fr.Is(pkWire, "Server", "TLSConfig") {
+					cfgNonNil = append(cfgNonNil, nilEdges(v, false)...)
+				}
+			}
+			if isCertCmp(cmp) {
+				certsNonEmpty = append(certsNonEmpty, constEqEdges(cmp.X, 0, false)...)
+				certsNonEmpty = append(certsNonEmpty, gtEdges(fn, func(v ssa.Value) bool { return v == cmp.X }, func(v ssa.Value) bool { k, ok := core.ConstInt(v); return ok && k == 0 })...)
+			}
+		}
+	}
+	if depth == 0 {
+		return
+	}
+	for _, ci := range core.Calls(fn) {
+		call, isCall := ci.(*ssa.Call)
+		h := core.StaticCallee(ci)
+		if !isCall || h == nil || h == fn || !c.P.InPkg(h, "wire") || h.Blocks == nil {
+			continue
+		}
+		if bt, ok := call.Type().Underlying().(*types.Basic); !ok || bt.Kind() != types.Bool {
+			continue
+		}
+		hCfg, hCerts := c.certGuards(h, depth-1)
+		if len(hCfg) == 0 {
+			continue
+		}
+		// true is answered only where both are known: every leaf of every result is the constant false, the constant
+		// true under both edges, or the certificates comparison itself evaluated under the TLSConfig != nil edge
+		onlyBoth := len(returns(h)) > 0
+		for _, r := range returns(h) {
+			if len(r.Results) != 1 {
+				onlyBoth = false
+				continue
+			}
+			var ls []ssa.Value
+			leaves(r.Results[0], map[ssa.Value]bool{}, &ls)
+			for _, l := range ls {
+				if k, isK := core.ConstBool(l); isK {
+					if k && !(anyDominates(hCfg, r.Block()) && anyDominates(hCerts, r.Block())) {
+						onlyBoth = false
+					}
+					continue
+				}
+				cmp, isCmp := l.(*ssa.BinOp)
+				if !isCmp || !anyDominates(hCfg, cmp.Block()) {
+					onlyBoth = false
+					continue
+				}
+				x, isLen := core.IsLenOf(cmp.X)
+				k, isK := core.ConstInt(cmp.Y)
+				_, pth := pathOf(x)
+				if !isLen || !isK || k != 0 || pth != ".TLSConfig.Certificates" || (cmp.Op != token.GTR && cmp.Op != token.NEQ) {
+					onlyBoth = false
+				}
+			}
+		}
+		if onlyBoth {
+			cfgNonNil = append(cfgNonNil, boolEdges(call, true)...)
+			certsNonEmpty = append(certsNonEmpty, boolEdges(call, true)...)
+		}
+	}
+	return
 }
